@@ -153,9 +153,12 @@ func (s *Server) Session(strm signaling.SRPCSignaling_SessionStream) error {
 		prevRemotePeer.recv, prevRemotePeer.recvSent = nil, nil
 	}
 
+	// Take the wait channel before broadcasting so that our own write loop runs
+	// once right away: if the remote peer is already attached we must tell the
+	// local peer that the session is open without waiting for another change.
+	waitCh := sess.getWaitCh()
 	sess.seqno++
 	sess.broadcast()
-	waitCh := sess.getWaitCh()
 
 	s.mtx.Unlock()
 
